@@ -977,3 +977,20 @@ Fixpoint squeeze_spaces (s : str) : str :=
       if (c =? 32) && match s' with d :: _ => d =? 32 | [] => false end
       then squeeze_spaces s' else c :: squeeze_spaces s'
   end.
+
+(* quantize with the rounding mode given as decimal's constant (a string) *)
+Definition rounding_of (m : pyval) : option rounding :=
+  match m with
+  | VStr s =>
+      if str_eqb s [82;79;85;78;68;95;72;65;76;70;95;85;80] then Some ROUND_HALF_UP
+      else if str_eqb s [82;79;85;78;68;95;85;80] then Some ROUND_UP
+      else if str_eqb s [82;79;85;78;68;95;68;79;87;78] then Some ROUND_DOWN
+      else if str_eqb s [82;79;85;78;68;95;72;65;76;70;95;69;86;69;78] then Some ROUND_HALF_EVEN
+      else None
+  | _ => None
+  end.
+Definition py_quantize_v (x nd m : pyval) : res pyval :=
+  match rounding_of m with
+  | Some r => py_quantize x nd r
+  | None => Raise Unmodelled
+  end.
